@@ -48,6 +48,7 @@ pub open spec fn op_text(t: Token) -> Seq<char> { match t { Token::Operator(s, _
 pub open spec fn first<'a>(g: G<'a>) -> Token<'a> decreases g {
     match g { G::Lit(t) => t, G::Ref(t) => t, G::Paren(t, _, _) => t, G::Pre(t, _) => t, G::Bin(l, _, _, _) => first(*l), G::Cond(c, _, _, _, _) => first(*c), G::Post(g, _, _) => first(*g), G::List(t, _, _, _) => t, G::Call(t, _, _, _, _) => t, G::Entry(k, _, _) => first(*k), G::Map(t, _, _, _) => t }
 }
+#[verifier::opaque]
 pub open spec fn ast_of<'a>(g: G<'a>) -> ExprAST<'a> decreases g {
     match g {
         G::Lit(t) => match t {
@@ -242,9 +243,12 @@ pub proof fn lemma_bin_step<'a>(g: G<'a>, nt: Option<Token<'a>>, t_op: Token<'a>
         let g2 = G::Bin(Box::new(g), nt, t_op, Box::new(gr));
         &&& wf(g2, b, cur) &&& lspine(g2, min) &&& first(g2) == first(g)
         &&& (tok_is(cur, "?"@) || rspine(g2, la(b, cur)))
+        &&& !(g2 is Cond) &&& !(g2 is Entry)
+        &&& ast_of(g2) == (match t_op { Token::Operator(s, _) => if nt is Some { ExprAST::Unary("not", Box::new(ExprAST::Binary(s, Box::new(ast_of(g)), Box::new(ast_of(gr))))) }
+                                                                     else { ExprAST::Binary(s, Box::new(ast_of(g)), Box::new(ast_of(gr))) }, _ => ExprAST::None })   // @C02 binary.node
     }),
 {
-    reveal_with_fuel(wf, 2); reveal_with_fuel(lspine, 2); reveal_with_fuel(rspine, 2);
+    reveal_with_fuel(wf, 2); reveal_with_fuel(lspine, 2); reveal_with_fuel(rspine, 2); reveal_with_fuel(ast_of, 2);
 }
 // a primary has no operator on either spine
 pub proof fn lemma_prim_spines(g: G)
@@ -258,11 +262,74 @@ pub proof fn lemma_cond_step<'a>(g: G<'a>, tq: Token<'a>, ga: G<'a>, tc: Token<'
         tok_is_sep(tc, ":"@), nxt(b, tc, first(gb)), wf(gb, b, cur), min <= 0,
     ensures ({
         let gc = G::Cond(Box::new(g), tq, Box::new(ga), tc, Box::new(gb));
-        &&& wf(gc, b, cur) &&& lspine(gc, min) &&& first(gc) == first(g)
+        &&& wf(gc, b, cur) &&& lspine(gc, min) &&& first(gc) == first(g) &&& !(gc is Entry)
+        &&& ast_of(gc) == ExprAST::Ternary(Box::new(ast_of(g)), Box::new(ast_of(ga)), Box::new(ast_of(gb)))   // @C02 conditional.node
     }),
 {
-    reveal_with_fuel(wf, 2); reveal_with_fuel(lspine, 2); reveal_with_fuel(rspine, 2);
+    reveal_with_fuel(wf, 2); reveal_with_fuel(lspine, 2); reveal_with_fuel(rspine, 2); reveal_with_fuel(ast_of, 2);
 }
+
+// ---------- node construction lemmas: the only places where `wf` is unfolded for a new node; call sites see plain preconditions ----------
+pub proof fn lemma_node_lit<'a>(t: Token<'a>, b: Seq<u8>, follow: Token<'a>)
+    requires t is Number || t is Bool || t is String, nxt(b, t, follow),   // @C05,C09 node.literal
+    ensures wf(G::Lit(t), b, follow), is_atom(G::Lit(t)), first(G::Lit(t)) == t,
+        ast_of(G::Lit(t)) == (match t { Token::Number(d, _) => ExprAST::Literal(Literal::Number(d)), Token::Bool(v, _) => ExprAST::Literal(Literal::Bool(v)), Token::String(s, _) => ExprAST::Literal(Literal::String(s)), _ => ExprAST::None }),
+{ reveal_with_fuel(wf, 2); reveal_with_fuel(ast_of, 2); }
+pub proof fn lemma_node_ref<'a>(t: Token<'a>, b: Seq<u8>, follow: Token<'a>)
+    requires t is Reference, nxt(b, t, follow),   // @C05 node.reference
+    ensures wf(G::Ref(t), b, follow), is_atom(G::Ref(t)), first(G::Ref(t)) == t,
+        ast_of(G::Ref(t)) == (match t { Token::Reference(s, _) => ExprAST::Reference(s), _ => ExprAST::None }),
+{ reveal_with_fuel(wf, 2); reveal_with_fuel(ast_of, 2); }
+pub proof fn lemma_node_paren<'a>(to: Token<'a>, g: G<'a>, tc: Token<'a>, b: Seq<u8>, follow: Token<'a>)
+    requires tok_is(to, "("@), nxt(b, to, first(g)), wf(g, b, tc),
+        tok_is(tc, ")"@),          // @C05 paren.closer
+        nxt(b, tc, follow),
+    ensures ({ let p = G::Paren(to, Box::new(g), tc); wf(p, b, follow) && is_atom(p) && first(p) == to && ast_of(p) == ast_of(g) }),   // @C02 paren.transparent
+{ reveal_with_fuel(wf, 2); reveal_with_fuel(ast_of, 2); }
+pub proof fn lemma_node_pre<'a>(t: Token<'a>, g: G<'a>, b: Seq<u8>, follow: Token<'a>)
+    requires t is Operator,
+        keyword::reg_prefix(op_text(t)),      // @C05 prefix.registered
+        nxt(b, t, first(g)),
+        is_prim(g),                           // @C02 prefix.operand_is_primary
+        wf(g, b, follow),
+    ensures ({ let p = G::Pre(t, Box::new(g)); wf(p, b, follow) && is_prim(p) && first(p) == t
+            && ast_of(p) == (match t { Token::Operator(s, _) => ExprAST::Unary(s, Box::new(ast_of(g))), _ => ExprAST::None }) }),
+{ reveal_with_fuel(wf, 2); reveal_with_fuel(ast_of, 2); }
+pub proof fn lemma_node_post<'a>(g: G<'a>, t: Token<'a>, s: String, b: Seq<u8>, follow: Token<'a>)
+    requires
+        is_atom(g),                           // @C02 postfix.operand_is_atom
+        wf(g, b, t), t is Operator,
+        keyword::reg_postfix(op_text(t)),     // @C05 postfix.registered
+        s@ == op_text(t), nxt(b, t, follow),
+    ensures ({ let p = G::Post(Box::new(g), t, s); wf(p, b, follow) && is_prim(p) && first(p) == first(g) && ast_of(p) == ExprAST::Postfix(Box::new(ast_of(g)), s) }),
+{ reveal_with_fuel(wf, 2); reveal_with_fuel(ast_of, 2); }
+pub proof fn lemma_node_list<'a>(to: Token<'a>, items: Seq<(G<'a>, Option<Token<'a>>)>, tc: Token<'a>, v: Vec<ExprAST<'a>>, b: Seq<u8>, t1: Token<'a>, follow: Token<'a>)
+    requires tok_is(to, "["@), nxt(b, to, t1), wf_items(items, b, t1, tc),
+        tok_is_sep(tc, "]"@),      // @C05 list.closer
+        nxt(b, tc, follow), v@.len() == items.len(), forall|i: int| 0 <= i < items.len() ==> v@[i] == ast_of(#[trigger] items[i].0),
+    ensures ({ let p = G::List(to, items, tc, v); wf(p, b, follow) && is_atom(p) && first(p) == to && ast_of(p) == ExprAST::List(v) }),
+{ reveal_with_fuel(wf, 2); reveal_with_fuel(ast_of, 2); if items.len() > 0 { lemma_items_first(items, b, t1, tc); } else { reveal_with_fuel(wf_items, 2); } }
+pub proof fn lemma_node_map<'a>(to: Token<'a>, items: Seq<(G<'a>, Option<Token<'a>>)>, tc: Token<'a>, v: Vec<(ExprAST<'a>, ExprAST<'a>)>, b: Seq<u8>, t1: Token<'a>, follow: Token<'a>)
+    requires tok_is(to, "{"@), nxt(b, to, t1), wf_items(items, b, t1, tc),
+        tok_is_sep(tc, "}"@),      // @C05 map.closer
+        nxt(b, tc, follow), v@.len() == items.len(), forall|i: int| 0 <= i < items.len() ==> entry_ok(#[trigger] items[i].0, v@[i]),
+    ensures ({ let p = G::Map(to, items, tc, v); wf(p, b, follow) && is_atom(p) && first(p) == to && ast_of(p) == ExprAST::Map(v) }),
+{ reveal_with_fuel(wf, 2); reveal_with_fuel(ast_of, 2); if items.len() > 0 { lemma_items_first(items, b, t1, tc); } else { reveal_with_fuel(wf_items, 2); } }
+pub proof fn lemma_node_entry<'a>(gk: G<'a>, tcol: Token<'a>, gv: G<'a>, b: Seq<u8>, follow: Token<'a>)
+    requires wf(gk, b, tcol), !(gk is Entry),
+        tok_is_sep(tcol, ":"@),    // @C05 map.colon
+        nxt(b, tcol, first(gv)), wf(gv, b, follow), !(gv is Entry),
+    ensures ({ let p = G::Entry(Box::new(gk), tcol, Box::new(gv)); wf(p, b, follow) && first(p) == first(gk) && entry_ok(p, (ast_of(gk), ast_of(gv))) }),
+{ reveal_with_fuel(wf, 2); }
+pub proof fn lemma_node_call<'a>(tn: Token<'a>, to: Token<'a>, items: Seq<(G<'a>, Option<Token<'a>>)>, tc: Token<'a>, v: Vec<ExprAST<'a>>, b: Seq<u8>, t1: Token<'a>, follow: Token<'a>)
+    requires tn is Function, nxt(b, tn, to),
+        tok_is_sep(to, "("@),      // @C05 call.open
+        nxt(b, to, t1), wf_items(items, b, t1, tc), items.len() > 0 ==> items.last().1 is None,
+        tok_is(tc, ")"@),          // @C05 call.closer
+        nxt(b, tc, follow), v@.len() == items.len(), forall|i: int| 0 <= i < items.len() ==> v@[i] == ast_of(#[trigger] items[i].0),
+    ensures ({ let p = G::Call(tn, to, items, tc, v); wf(p, b, follow) && is_atom(p) && first(p) == tn
+            && ast_of(p) == (match tn { Token::Function(nm, _) => ExprAST::Function(nm, v), _ => ExprAST::None }) }),
+{ reveal_with_fuel(wf, 2); reveal_with_fuel(ast_of, 2); if items.len() > 0 { lemma_items_first(items, b, t1, tc); } else { reveal_with_fuel(wf_items, 2); } }
 impl<'a> Parser<'a> {
     pub closed spec fn bytes(&self) -> Seq<u8> { self.tokenizer.bytes() }
     pub open spec fn d_atom(&self, old: &Parser<'a>, r: ExprAST<'a>) -> bool {
